@@ -46,18 +46,22 @@ def floors(tier):
                          "backward_moves": 100, "equal_time_moves": 20, "multi_step_moves": 200,
                          "boundary_delta_moves": 100,
                          "py_long_moves_checked": N[tier]["py"] * LONG[tier]["py"] // 2,
-                         "cpp_long_moves_checked": N[tier]["cpp"] * LONG[tier]["cpp"] // 2}}
+                         "cpp_long_moves_checked": N[tier]["cpp"] * LONG[tier]["cpp"] // 2,
+                         "cpp_moves_beyond_2^20_steps": N[tier]["cpp"], "py_moves_beyond_2^20_steps": N[tier]["py"] // 6}}
 
 
-def gen_long_move(rng):
+def gen_long_move(rng, huge=False):
     """A coast over 2e4 .. 4e5 steps (hours of filter time at a 10-100 ms step)."""
     cands = [i for i, md in enumerate(rtmodel.MAX_DTS) if 5e-3 <= md <= 0.5]
     mi = rng.choice(cands)
     md = rtmodel.MAX_DTS[mi]
     n = rng.randint(20_000, 400_000)
+    if huge:
+        # beyond 2**20 steps in one move (a day of filter time at 0.05-0.1 s, minutes at 1 ms)
+        n = rng.randint((1 << 20) + 1000, 2_600_000)
     a = rng.choice([0.0, 100.0, -250.5, round(rng.uniform(-1e3, 1e3), 3)])
     d = (n + rng.choice([0.0, 0.5, rng.random()])) * md
-    return mi, md, a, a + rng.choice([1.0, 1.0, -1.0]) * d, "long"
+    return mi, md, a, a + rng.choice([1.0, 1.0, -1.0]) * d, "huge" if huge else "long"
 
 
 def gen_move(rng):
@@ -132,8 +136,8 @@ def _py(R, rng, ctx):
         dts = [e[1] for e in res.state if e[0] == "p"]
         _classify(R, a, b, md, kind, dts, "py")
     # very long coasts (run-length encoded log)
-    for _ in range(LONG[ctx["tier"]]["py"]):
-        mi, md, a, b, kind = gen_long_move(rng)
+    for li in range(LONG[ctx["tier"]]["py"]):
+        mi, md, a, b, kind = gen_long_move(rng, huge=(li == 0 and ctx.get("_unit_i", 0) % 3 == 0))
         rec = rtmodel.RecFilterRLE(md, control_size=rng.choice([0, 1]))
         mf = ManagedFilter(rec, a, (), None)
         try:
@@ -143,6 +147,8 @@ def _py(R, rng, ctx):
             continue
         dts = [e[1] for e in rtmodel.RecFilterRLE.expand(res.state) if e[0] == "p"]
         R.stats.inc("py_long_moves_checked")
+        if kind == "huge":
+            R.stats.inc("py_moves_beyond_2^20_steps")
         R.stats.mx("longest_move_steps", len(dts))
         _classify(R, a, b, md, kind, dts, "py")
     # histories: readings move the held time forwards and backwards
@@ -171,7 +177,7 @@ def _cpp(R, rng, ctx, i):
     moves = [gen_move(rng) for _ in range(MOVES[ctx["tier"]]["cpp"])]
     # keep the quadratic log copies bounded
     moves = [m for m in moves if abs(m[3] - m[2]) / m[1] <= 2001]
-    moves += [gen_long_move(rng) for _ in range(LONG[ctx["tier"]]["cpp"])]
+    moves += [gen_long_move(rng, huge=(li < 2)) for li in range(LONG[ctx["tier"]]["cpp"])]
     with cppdrv.Scratch() as sc:
         sc.write("rt.cpp", src)
         ok, err = cppdrv.compile_cpp(sc, ["rt.cpp"], out="rt", compiler=compiler)
@@ -196,7 +202,9 @@ def _cpp(R, rng, ctx, i):
     for (mi, md, a, b, kind), toks in zip(moves, lines):
         ev = rtmodel.parse_r_line(toks)
         dts = [e[1] for e in ev if e[0] == "p"]
-        if kind == "long":
+        if kind == "huge":
+            R.stats.inc("cpp_moves_beyond_2^20_steps")
+        if kind in ("long", "huge"):
             R.stats.inc("cpp_long_moves_checked")
             R.stats.mx("longest_move_steps", len(dts))
         _classify(R, a, b, md, kind, dts, "cpp")
@@ -206,6 +214,7 @@ def _cpp(R, rng, ctx, i):
 def run_unit(unit, ctx):
     R = K.Result()
     rng = K.unit_rng(ID, ctx["seed"], unit)
+    ctx["_unit_i"] = unit["i"]
     if unit["kind"] == "py":
         _py(R, rng, ctx)
     else:
